@@ -254,7 +254,7 @@ theorem inv_fparse_mutual {n cfg} : ∀ fuel,
       have hc := inv_cur h
       have hkey : Inv n (if ((cur s).1 == 0x22 || (cur s).1 == 0x27) = true then parseQuoted cfg (cur s).1 (f+1) [] 0 (mv (cur s).2)
             else if inUnquoted (cur s).1 = true then
-              (Code.ok, (parseUnquoted (f+1) [] (cur s).2).1, (parseUnquoted (f+1) [] (cur s).2).2)
+              ((if (parseUnquoted (f+1) [] (cur s).2).1.length > cfg.maxStrLen then Code.noMemory else Code.ok), (parseUnquoted (f+1) [] (cur s).2).1, (parseUnquoted (f+1) [] (cur s).2).2)
             else (Code.invalid, [], (cur s).2)).2.2 := by
         split
         · exact inv_parseQuoted _ _ _ _ (inv_mv hc)
@@ -263,7 +263,7 @@ theorem inv_fparse_mutual {n cfg} : ∀ fuel,
           · exact hc
       generalize (if ((cur s).1 == 0x22 || (cur s).1 == 0x27) = true then parseQuoted cfg (cur s).1 (f+1) [] 0 (mv (cur s).2)
             else if inUnquoted (cur s).1 = true then
-              (Code.ok, (parseUnquoted (f+1) [] (cur s).2).1, (parseUnquoted (f+1) [] (cur s).2).2)
+              ((if (parseUnquoted (f+1) [] (cur s).2).1.length > cfg.maxStrLen then Code.noMemory else Code.ok), (parseUnquoted (f+1) [] (cur s).2).1, (parseUnquoted (f+1) [] (cur s).2).2)
             else (Code.invalid, [], (cur s).2)) = kr at hkey ⊢
       obtain ⟨kc, key, s1⟩ := kr
       cases kc <;> simp only at hkey ⊢ <;> try exact hkey
